@@ -1,3 +1,28 @@
+/-
+  C01 (generated-code level) — `bid128_div` of the translated source on ALL operands, and the property C01 about the public
+  method `division` (`Dec.Gen.Api.run "division"`).  Puts together
+    * `C01GenDiv`     (main path of `bid128_div_clear_status` = `divD`, given exactness of its one call of the long division),
+    * `C01GenDiv256`  (`div_256_by_128_exact`: the repaired `bid___div_256_by_128` is exact up to one float-margin corner),
+    * `C01GenMul.div_front'` (NaN-free front end), `C12GenNaN.div_nan` (NaN operands), `C10GenRem` (128-bit division).
+
+  ONE residual hypothesis, `CornerMargin` (§2): the `hcorner` of `div_256_by_128_exact`, universally closed over divisors
+  `0 < Y < 2^113` (`CornerAt X Y` for one pair).  It is vacuous for quotients `≥ 2^100` (`corner_of_big`) and for a zero dividend
+  (`corner_of_zero`), hence in `bid128_div` it is asked for only in the branch `CX ≥ CY` with a remainder (`call256_at_of`): the
+  branch `CY > CX` divides to a quotient `≥ 10^33 > 2^100`.  `div256_exact : CornerMargin → C01GenDiv.Div256Exact`.
+
+  §1  the packers return canonical patterns (`get_canon`, `uf_rem_canon`) — `C01GenDiv` states decoded results only.
+  §3  so does the main path (`div_main_canon`), hence the result WORD is `ofBits (encode …)` (`div_main_word`).
+  §4  `div_spec_front` (unconditional off the main path), `bid128_div_spec_of` (pointwise corner hypothesis),
+      **`bid128_div_spec (h : CornerMargin) : bid128_div x y m f = .ok (binSpec (divD (md m)) x y f)`** for every pair of 128-bit
+      patterns, every mode, every status word (`binSpec` of `C10GenFmodRem`: NaN rule, else canonical pattern of `divD`'s datum
+      and `divD`'s flags OR-ed in).
+  §5  about `run "division"`: `api_division`; `quotient_property` (correctly rounded quotient = the unique `FinishSpecStrict`
+      delivery, sign xor, flags 0 iff exactly representable else inexact (+ underflow / overflow), preferred exponent);
+      `quotient_property_free` (no hypothesis for `c1 < c2` or `c2 ∣ c1`); `exact_property` (`c1 = q·c2`: exactly `q·10^(e1−e2)`);
+      `div_by_zero_property` (0x04, infinity of the xor sign); `invalid_property` (0/0, ∞/∞); `inf_property`; `zero_property`;
+      `nan_property`; each with evaluated examples (`decide +kernel` on `run`).
+  Findings: none beyond the defect of `bid___div_256_by_128` found and repaired earlier (`C01GenDiv256`).
+-/
 import DecProofs.Properties.C01GenDiv
 import DecProofs.Properties.C01GenDiv256
 import DecProofs.Properties.C10GenFmodRem
@@ -436,6 +461,8 @@ theorem bid128_div_spec (h : CornerMargin) (x y : U128) (m : RoundingMode) (f : 
   exact h A (ofBits c2) (by rw [hY]; exact hc2) (by rw [hY]; omega)
 
 /-! ## 5. The property C01 about the public method `division` (`Dec.Gen.Api.run`) -/
+
+open Dec.Gen.Api
 
 theorem run_division (m : RoundingMode) (f : UInt32) (a0 a1 : U128) :
     run "division" m f [.d a0, .d a1] = some ((bid128_div a0 a1 m f).map fun (r, g) => ([.d r], g)) := rfl
